@@ -82,10 +82,14 @@ def rule_tag_attrs_spare_client_members(repo: Repo, rep, rule: str = "R7.14") ->
             txt = "".join(v.value if isinstance(v, ast.Constant) else "{}" for v in a.values)
             if _re.match(r"^def \{\}\(self", txt):
                 per_tag_def += 1
+                continue
             if _re.match(r"^self\._\{\}\s*(:[^=]*)?=", txt):
                 per_tag_slot += 1
-            continue
-        txt = const_str(a)
+                continue
+            # a fixed member whose *value* is computed: `self.version: str = {...!r}` - the name is in the constant head of the line
+            txt = txt.split("{}", 1)[0] if _re.match(r"^(?:(?:async )?def [A-Za-z_][A-Za-z0-9_]*\(self|self\._?[A-Za-z][A-Za-z0-9_]*\s*(?::[^=]*)?=[^=])", txt.split("{}", 1)[0] + " ") else None
+        else:
+            txt = const_str(a)
         if txt is None:
             continue
         m = _re.match(r"^(?:async )?def ([A-Za-z_][A-Za-z0-9_]*)\(self", txt)
